@@ -852,7 +852,7 @@ def noHashC : CNode → Prop
   | _ => True
 
 section graph
-variable (hs : Hasher) (hsmall : ∀ c, hs.small c = true → noHashC c)
+variable (hs : Hasher) (hsmall : ∀ m : Node, hs.small (refKids hs m) = true → noHashC (refKids hs m))
 
 /-- the reference of a child is either a hash or the embedded (small) collapsed child -/
 theorem refC_cases (m : Node) (hb : Node.isBranch m = true) :
